@@ -302,19 +302,56 @@ Section StepMono.
         rewrite (gm_case_items f G f' s R Hle E ltac:(discriminate))
     end.
 
+  (* transport one freshly obtained equation about a call on fuel [f] *)
+  Ltac ptransport1 E :=
+    match type of E with
+    | lex_token (p_inner f) f ?s = ?R => rewrite (tk_ext12 s R E ltac:(discriminate))
+    | skip_newlines _ f ?s = ?R =>
+        rewrite (skip_newlines_mono tk1 tk2 tk_ext12 f f' s R Hle E ltac:(discriminate))
+    | p_redir _ ?s = ?R => rewrite (p_redir_mono tk1 tk2 tk_ext12 s R E ltac:(discriminate))
+    | p_redirs _ f ?s = ?R =>
+        rewrite (p_redirs_mono tk1 tk2 tk_ext12 f f' s R Hle E ltac:(discriminate))
+    | p_array _ f ?s = ?R =>
+        rewrite (p_array_mono tk1 tk2 tk_ext12 f f' s R Hle E ltac:(discriminate))
+    | p_for_values _ f ?b ?s = ?R =>
+        rewrite (p_for_values_mono tk1 tk2 tk_ext12 f f' b s R Hle E ltac:(discriminate))
+    | p_patterns _ f ?s = ?R =>
+        rewrite (p_patterns_mono tk1 tk2 tk_ext12 f f' s R Hle E ltac:(discriminate))
+    | p_inner f ?s = ?R => rewrite (gm_inner f G f' s R Hle E ltac:(discriminate))
+    | p_mcl f ?s = ?R => rewrite (gm_mcl f G f' s R Hle E ltac:(discriminate))
+    | p_list f ?s = ?R => rewrite (gm_list f G f' s R Hle E ltac:(discriminate))
+    | p_and_or f ?s = ?R => rewrite (gm_and_or f G f' s R Hle E ltac:(discriminate))
+    | p_and_or_rest f ?s = ?R => rewrite (gm_and_or_rest f G f' s R Hle E ltac:(discriminate))
+    | p_pipeline f ?s = ?R => rewrite (gm_pipeline f G f' s R Hle E ltac:(discriminate))
+    | p_pipe_rest f ?s = ?R => rewrite (gm_pipe_rest f G f' s R Hle E ltac:(discriminate))
+    | p_command f ?s = ?R => rewrite (gm_command f G f' s R Hle E ltac:(discriminate))
+    | p_simple f ?d ?b ?s = ?R => rewrite (gm_simple f G f' d b s R Hle E ltac:(discriminate))
+    | p_full_compound f ?s = ?R =>
+        rewrite (gm_full_compound f G f' s R Hle E ltac:(discriminate))
+    | p_compound f ?s = ?R => rewrite (gm_compound f G f' s R Hle E ltac:(discriminate))
+    | p_do_clause f ?s = ?R => rewrite (gm_do_clause f G f' s R Hle E ltac:(discriminate))
+    | p_elifs f ?s = ?R => rewrite (gm_elifs f G f' s R Hle E ltac:(discriminate))
+    | p_case_items f ?s = ?R => rewrite (gm_case_items f G f' s R Hle E ltac:(discriminate))
+    end.
+
+  (* walk through the hypothesis and the goal in step: destruct the next
+     scrutinee of the hypothesis and transport the equation at once *)
+  Ltac psync H :=
+    repeat (match type of H with
+            | context [match ?x with _ => _ end] =>
+                lazymatch x with
+                | context [match _ with _ => _ end] => fail
+                | _ => idtac
+                end;
+                let E := fresh "E" in
+                destruct x eqn:E; try ptransport1 E; cbv beta iota in H |- *
+            end; try discriminate).
+
   Ltac pmono eqn :=
     intros H HR; rewrite eqn in H |- *; unfold bind in *; cbv zeta in *;
-    dmall; clean;
-    try (exfalso; match goal with H1 : Fuel = ?R, H2 : ?R <> Fuel |- _ =>
-                    apply H2; symmetry; exact H1 end);
-    try (exfalso; match goal with H2 : Fuel <> Fuel |- _ => apply H2; reflexivity end);
-    repeat (progress (ptransport;
-                      repeat match goal with
-                             | E : ?x = _ |- context [match ?x with _ => _ end] => rewrite E
-                             | E : ?x = _ |- context [if ?x then _ else _] => rewrite E
-                             end;
-                      cbv beta iota));
-    try reflexivity; try assumption; try congruence.
+    psync H;
+    try (exfalso; apply HR; symmetry; exact H);
+    try exact H; try reflexivity; try congruence.
 
   Lemma sm_inner : forall s R, p_inner (S f) s = R -> R <> Fuel -> p_inner (S f') s = R.
   Proof. intros s R. pmono p_inner_eq. Qed.
@@ -336,7 +373,6 @@ Section StepMono.
   Proof.
     intros d b s R. pmono p_simple_eq.
     all: try (eapply (gm_simple f G f'); [exact Hle | eassumption | assumption]).
-    all: apply (gm_simple f G f'); [exact Hle | reflexivity | assumption].
   Qed.
   Lemma sm_full_compound : forall s R, p_full_compound (S f) s = R -> R <> Fuel ->
                            p_full_compound (S f') s = R.
